@@ -60,6 +60,7 @@ package pubsub
 // (anyone could have forged it); every other rejection does.
 //@ func (*gossipTracer).RejectMessage
 //@   property C17
+//@   requires msg: msg != nil && gt.idGen != nil
 //@   noframe
 //@   ensures signature-rejections-keep-promises: reason == RejectMissingSignature || reason == RejectInvalidSignature ==>
 //@        calls((*gossipTracer).fulfillPromise) == old(calls((*gossipTracer).fulfillPromise))
